@@ -25,13 +25,17 @@ func scenarios(tier string) []engine.Scenario {
 	}
 	// Scenario i runs on worker i mod 16: emitted family by family so that each family (= similar cost)
 	// is spread over all workers.
-	var ks, auto, rd, br, cp, pk, kn []engine.Scenario
+	var ks, auto, rd, br, cp, pk, kn, es []engine.Scenario
 	for _, ch := range chains(tier) {
 		for _, rt := range []ring.Type{ring.Standard, ring.ConjugateInvariant} {
 			ks = append(ks, ksScenario(rt, 4, ch, bound))
 			auto = append(auto, autoScenario(rt, 4, ch, boundAuto))
 			rd = append(rd, ringDegScenario(rt, 5, ch, bound))
 			cp = append(cp, compressScenario(rt, 4, ch, bound))
+			es = append(es, evalSeqScenario(rt, 4, ch, boundAuto))
+			if ch.Name != "q61x6-p61x2" || rt == ring.Standard { // (known class at odd log N in the conjugate-invariant ring)
+				es = append(es, evalSeqScenario(rt, 5, ch, boundAuto))
+			}
 		}
 		br = append(br, bridgeScenario(ch, bound))
 		pk = append(pk, packScenario(5, 4, ch, boundAuto))
@@ -41,7 +45,7 @@ func scenarios(tier string) []engine.Scenario {
 		}
 	}
 	for _, ch := range chains(tier) {
-		class := map[string]string{"q30x3-p30x2": sigLevelPMinus1, "q45x3-noP": sigNoPNoBase2, "q30up-x2-p61": sigDigitCount}[ch.Name]
+		class := map[string]string{"q30x3-p30x2": sigLevelPMinus1, "q45x3-noP": "control(no-P)", "q30up-x2-p61": sigDigitCount}[ch.Name]
 		if class != "" {
 			kn = append(kn, knownScenario(ring.Standard, 4, ch, class), knownScenario(ring.ConjugateInvariant, 4, ch, class))
 		}
@@ -54,6 +58,7 @@ func scenarios(tier string) []engine.Scenario {
 	scs = append(scs, br...)
 	scs = append(scs, pk...)
 	scs = append(scs, cp...)
+	scs = append(scs, es...)
 	scs = append(scs, kn...)
 	return scs
 }
@@ -66,9 +71,19 @@ func expect(tier string) []string {
 		"op=ApplyEvaluationKey/small->large", "op=ApplyEvaluationKey/large->small",
 		"op=DomainSwitcher.RealToComplex", "op=DomainSwitcher.ComplexToReal",
 		"op=Expand==rlk", "op=Expand==gk", "op=Expand==evk"}
-	for _, k := range []string{sigLevelPMinus1, sigNoPNoBase2, sigDigitCount, sigCIOddLogN61, "none(control)"} {
+	for _, k := range []string{sigLevelPMinus1, sigDigitCount, sigCIOddLogN61, "none(control)"} {
 		e = append(e, "known-class="+k)
 	}
+	for _, o := range evalSeqOps {
+		e = append(e, "evalseq-op="+o)
+	}
+	for _, o := range creationNames {
+		e = append(e, "evalseq-creation="+o)
+	}
+	for _, o := range deriveNames {
+		e = append(e, "evalseq-evaluator="+o)
+	}
+	e = append(e, "evalseq-ring=Std", "evalseq-ring=CI", "evalseq-key=galois-added-after-creation", "evalseq-key=rlk-added-after-creation")
 	for _, o := range ksOps {
 		e = append(e, "op="+o)
 	}
